@@ -456,10 +456,10 @@ Print Assumptions model_is_code_dropin_time_sub.
    astimezone and FixedTimezone.utcoffset / fromutc translated from /repo on every run (g15_tz_glue.py; proved equal to Model/TzConvert.v in Proofs/TzGlueFacts.v),
    Gen/DropInMethods.v the body of FixedTimezone.dst.  Proofs/DropInGlueFacts.v carries them over to THIS property's hand models: a glue timezone object t is the
    tzinfo tzi_of t, a glue datetime d the value dtv_of d, rmap maps a result.  pd_create, pd_replace (every argument of replace() optional), pd_instance (value with
-   a pendulum timezone object, or naive with fold 0) and pd_astimezone (aware value, coherent tables) answer what the translated code answers.
-   FOUND by this tie: pd_instance answers fold 0 for a NAIVE value whose fold is 1 while the code keeps the fold (instance(dt, tz=None) = create(..., tz=None,
-   fold=dt.fold): DateTime.combine(date, time(fold=1)) is a naive DateTime with fold 1) — stated as dropin_instance_naive_fold1_model_differs; the model is wrong
-   there (no case of the run exercises it: the naive combine cases all have fold 0), the code is consistent with datetime.combine. *)
+   a pendulum timezone object, or naive with either fold) and pd_astimezone (aware value, coherent tables) answer what the translated code answers.
+   History: this tie found that pd_instance answered fold 0 for a NAIVE value whose fold is 1 while the code keeps the fold (instance(dt, tz=None) = create(...,
+   tz=None, fold=dt.fold): DateTime.combine(date, time(fold=1)) is a naive DateTime with fold 1); the model was corrected and the naive combine cases of the run
+   now carry both folds. *)
 From PV Require Import Model.TzGlueObj Gen.TzGlue Proofs.TzGlueFacts Proofs.DropInGlueFacts.
 
 Theorem model_is_code_dropin_create : forall tzo y m d h mi s us f,
@@ -478,15 +478,10 @@ Proof. exact glue_replace_is_pd_replace. Qed.
 Print Assumptions model_is_code_dropin_replace.
 
 Theorem model_is_code_dropin_instance : forall tzo W f pid, wall_in_range W = true ->
-  match tzo with Some t => pid = gz_id t | None => f = false end ->
+  match tzo with Some t => pid = gz_id t | None => True end ->
   rmap dtv_of (glue_DateTime_instance (dt_of W f tzo) None) = pd_instance (dtv_of (dt_of W f tzo)) pid.
 Proof. exact glue_instance_is_pd_instance. Qed.
 Print Assumptions model_is_code_dropin_instance.
-
-Theorem dropin_instance_naive_fold1_model_differs : forall W pid, wall_in_range W = true ->
-  rmap dtv_of (glue_DateTime_instance (dt_of W true None) None) = Ok (mkdtv W true None) /\ pd_instance (mkdtv W true None) pid = Ok (mkdtv W false None).
-Proof. exact instance_naive_fold1_model_differs. Qed.
-Print Assumptions dropin_instance_naive_fold1_model_differs.
 
 Theorem model_is_code_dropin_astimezone : forall t1 tz W f isp,
   gtz_ok t1 -> gtz_ok tz -> same_obj t1 tz -> tz_ok (tzi_of tz) -> wall_in_range W = true ->
